@@ -79,6 +79,7 @@ ExclusiveMonotonicBufferResource::ExclusiveMonotonicBufferResource(
 ExclusiveMonotonicBufferResource& ExclusiveMonotonicBufferResource::operator=(
     ExclusiveMonotonicBufferResource&& other) noexcept {
   ::std::swap(_page_allocator, other._page_allocator);
+  ::std::swap(_upstream, other._upstream);
 
   ::std::swap(_last_page_array, other._last_page_array);
   ::std::swap(_last_page_pointer, other._last_page_pointer);
